@@ -756,7 +756,10 @@ Definition c06h_run (which : Z) (case obs : sx) : verdict :=
               6 as 2, then a maintenance tick, remove_after off: maintenanceJob resumes a compressed job that never
                 reached the end of its file (EOF time stamp 0; /repo fix d780bcb) and reports "resumed" (2); the pass
                 that follows finds readers only and reads the file as in a first pass;
-              7 as 6 with remove_after expired: the same, the file is NOT removed (nothing of it had been read)
+              7 as 6 with remove_after expired: the same, the file is NOT removed (nothing of it had been read).
+                With saved offsets the offsets file of 6 | 7 carries last_read_timestamp: 0 (the earlier run was ended
+                before it reached the end of the file - the state in which a saved offset inside the content arises);
+              8 (replay only, not generated) as 7, but the saved EOF time stamp is not 0: judged like 7
      obs  = ((emit ...) curOffset #tail shouldSkip done [result [gone]])
             emit as in which 0 (which 6) / which 1 (which 7); done = Job.isDone at the end; result = what the tick of
             scenario 6 | 7 returned; gone = the file is removed (scenario 7)                                          *)
@@ -777,7 +780,7 @@ Definition zcase_of_sx (s : sx) : option zcase :=
   | SL [SZ mx; cut; SL os; SL fs; SZ n; SZ l] =>
       match as_bool cut, opt_map z_of_sx os, opt_map frame_of_sx fs with
       | Some cu, Some ol, Some fl =>
-          if (0 <=? mx) && (1 <=? n) && forallb (fun x => 0 <=? x) ol && (0 <=? l) && (l <=? 7)
+          if (0 <=? mx) && (1 <=? n) && forallb (fun x => 0 <=? x) ol && (0 <=? l) && (l <=? 8)
           then Some {| z_cfg := {| wmax := mx; wcut := cu |}; z_offs := ol; z_frames := fl; z_n := Z.to_nat n |}
           else None
       | _, _, _ => None
@@ -795,9 +798,9 @@ Definition z_pass (k : zcase) : Z * list emit * wst :=
   let '(es, st) := round (z_cfg k) {| cur := L; tail := []; skip := false |} (chunks (z_n k) rest) in
   (L, es, st).
 
-(* the lsof scenario of a case (zcase_of_sx has checked 0 <= l <= 7) *)
+(* the lsof scenario of a case (zcase_of_sx has checked 0 <= l <= 8) *)
 Definition z_lsof_of_sx (s : sx) : Z :=
-  match s with SL [_; _; _; _; _; SZ l] => l | _ => 0 end.
+  match s with SL [_; _; _; _; _; SZ l] => if l =? 8 then 7 else l | _ => 0 end.
 
 (* the file is read in this case (in its only pass, or in the pass after the write notification / the maintenance
    tick that resumed the job) *)
